@@ -49,19 +49,24 @@ def tcpAnalyze (req resp : TcpDb) (f : Fields) :
 
 /-! ### HTTP/1.x: parsed header list → matching observation -/
 
+def asciiLower (s : String) : String := String.ofList (s.toList.map Char.toLower)
+
+/-- `list.iter().any(|h| h.eq_ignore_ascii_case(name))` (fix 7200a1a: the optional and skip-value
+lists are matched ignoring ASCII case) -/
+def inListCI (l : List String) (n : String) : Bool := l.any (fun s => asciiLower s == asciiLower n)
+
 /-- `convert_headers_to_http_format(headers, is_request)`; headers are `(name, value)` in wire
-order (`http_common::HttpHeader`, value always present for HTTP/1.x). -/
+order (`http_common::HttpHeader`, value always present for HTTP/1.x). The name is reported as it
+is on the wire. -/
 def convertHeader (isReq : Bool) (h : String × Option String) : Header :=
   let optional := if isReq then Gen.BundledSig.requestOptionalHeaders else Gen.BundledSig.responseOptionalHeaders
   let skip := if isReq then Gen.BundledSig.requestSkipValueHeaders else Gen.BundledSig.responseSkipValueHeaders
-  if optional.contains h.1 then { optional := true, name := h.1, value := none }
-  else if skip.contains h.1 then { optional := false, name := h.1, value := none }
+  if inListCI optional h.1 then { optional := true, name := h.1, value := none }
+  else if inListCI skip h.1 then { optional := false, name := h.1, value := none }
   else { optional := false, name := h.1, value := h.2 }
 
 def convertHeaders (isReq : Bool) (hs : List (String × Option String)) : List Header :=
   hs.map (convertHeader isReq)
-
-def asciiLower (s : String) : String := String.ofList (s.toList.map Char.toLower)
 
 /-- `build_absent_headers_from_new_parser` (names compared in lower case). -/
 def absentHeaders (isReq : Bool) (hs : List (String × Option String)) : List Header :=
